@@ -190,6 +190,10 @@ def check_node_loop(repo, canon, res, f, fr, loop, tasks_name, map_name, task_ca
                     path=[repr(e) for e in seg if e.kind == 'test'])
             continue
         tv, mv = canon.p(appends[0].value, fr), canon.p(stores[0].value, fr)
+        av = appends[0].value
+        if isinstance(av, ast.Subscript) and isinstance(av.value, ast.Name) and av.value.id == map_name and isinstance(
+                av.slice, ast.Name) and av.slice.id == nodevar:
+            tv = mv          # the task appended is read back from the entry just stored for this node
         if tv != mv or not tv.startswith('Task('):
             res.bad('C14.G1', f, appends[0].node, 'appended task differs from mapped task',
                     'the task appended (%s) is not the Task mapped to the node (%s)' % (
@@ -282,7 +286,22 @@ def check_task_args(repo, canon, res, f, fr, tc, loop, ab, G, NODE):
     verdict('flops', P.get('flops') == "%s.nodes[%s]['comp']" % (G, NODE), "G.nodes[NODE]['comp']",
             'the compute demand is not read from this node')
     td = "%s.nodes[%s]['task_data']" % (G, NODE)
-    verdict('task_data', P.get('task_data') in (td, '{0|%s}' % td, "%s.nodes[%s].get('task_data', 0)" % (G, NODE)),
+    # the same statement in both arms of `if 'task_data' in G.nodes[NODE]` (a conditional default
+    # spelled out): the literal 0 is right exactly where the node has no such attribute
+    from ..index import guard_stack as _gs
+    absent = False
+    for g_ in (_gs(f.node, tc) or []):
+        if g_[0] == 'if':
+            t_, pol_ = g_[1], g_[2]
+            while isinstance(t_, ast.UnaryOp) and isinstance(t_.op, ast.Not):
+                t_, pol_ = t_.operand, not pol_
+            if isinstance(t_, ast.Compare) and len(t_.ops) == 1 and isinstance(t_.ops[0], (ast.In, ast.NotIn)) \
+                    and isinstance(t_.left, ast.Constant) and t_.left.value == 'task_data' \
+                    and canon.p(t_.comparators[0], fr) == '%s.nodes[%s]' % (G, NODE):
+                has = pol_ if isinstance(t_.ops[0], ast.In) else not pol_
+                absent = not has
+    verdict('task_data', P.get('task_data') in (td, '{0|%s}' % td, "%s.nodes[%s].get('task_data', 0)" % (G, NODE)) or (
+        absent and P.get('task_data') == '0'),
             "G.nodes[NODE]['task_data'] (default 0)", 'the data demand is not read from this node')
     # io: the per-edge volumes, as a map built over the in-edges of this node
     io = a.get('io')
